@@ -225,7 +225,7 @@ impl<'i> InterfaceGenerator<'i> {
                 r#"
 #[doc(hidden)]
 unsafe fn _resource_new(val: *mut u8) -> u32
-    where Self: Sized
+    where Self: ::core::marker::Sized
 {{
     {import_new}
     unsafe {{ new(val) as u32 }}
@@ -233,7 +233,7 @@ unsafe fn _resource_new(val: *mut u8) -> u32
 
 #[doc(hidden)]
 fn _resource_rep(handle: u32) -> *mut u8
-    where Self: Sized
+    where Self: ::core::marker::Sized
 {{
     {import_rep}
     unsafe {{ rep(handle as i32) }}
@@ -931,7 +931,7 @@ struct ParamsLower(
             self.src,
             "
 );
-unsafe impl Send for ParamsLower {{}}
+unsafe impl ::core::marker::Send for ParamsLower {{}}
             "
         );
 
@@ -1501,7 +1501,7 @@ unsafe fn call_import(&mut self, _params: Self::ParamsLower, _results: *mut u8) 
                 ConstructorReturnType::Result { err } => {
                     self.push_str("::core::result::Result<Self, ");
                     self.print_result_type(&err);
-                    self.push_str("> where Self: Sized");
+                    self.push_str("> where Self: ::core::marker::Sized");
                 }
             }
         } else {
